@@ -114,7 +114,7 @@ inductive KA where
 
 /-- environment choices for one run of MHD_connection_handle_idle -/
 structure IdleEnv where
-  timedOut : Bool := false        -- connection_check_timedout
+  timedOut : Bool := false        -- connection_check_timedout would fire for the last_activity at entry
   noSpace : Bool := false         -- check_and_grow_read_buffer_space: buffer full, pool exhausted
   chunkExt : Bool := false        -- … and the partial chunk-size line contains ';'
   errAllocFail : Bool := false    -- MHD_create_response_from_buffer_static returns NULL
@@ -173,7 +173,8 @@ structure Conn (σ : Type) where
   cont100Sent : Bool := false
   upOff : Nat := 0                 -- body bytes taken by the application so far
   inEpollSet : Bool := false
-  pendingErr : Bool := false       -- no-space condition not yet handled in this run
+  somePayloadProcessed : Bool := false  -- rq.some_payload_processed
+  touched : Bool := false          -- MHD_update_last_activity_ called during the current handle_idle run
   fault : Bool := false            -- MHD_PANIC / model cannot continue
   deriving Repr
 
@@ -213,7 +214,8 @@ def cleanupConnection {σ} (c : Conn σ) : Out σ :=
 /-- request fields cleared by `memset (&c->rq, 0, …)` -/
 def clearRq {σ} (c : Conn σ) : Conn σ :=
   { c with clientAware := false, ctx := none, framing := .none, remaining := 0, haveChunked := false,
-           chunkLeft := 0, inChunk := false, reqKA := false, expect100 := false, cont100Sent := false, upOff := 0 }
+           chunkLeft := 0, inChunk := false, reqKA := false, expect100 := false, cont100Sent := false, upOff := 0,
+           somePayloadProcessed := false }
 
 /-- connection_reset -/
 def connectionReset {σ} (c : Conn σ) (reuse : Bool) : Out σ :=
@@ -263,7 +265,7 @@ def transmitError {σ} (cfg : Cfg) (env : IdleEnv) (c : Conn σ) : Out σ :=
         let (c', l) := closeError c
         (c', l0 ++ l)
       else
-        let c := { c with response := some errResp, keepalive := .mustClose }
+        let c := { c with response := some errResp, keepalive := .mustClose, touched := true }
         let l1 := l0 ++ [LEv.queued]
         if env.errHdrFail1 then
           let (c, l2) := releaseEverything cfg c
@@ -304,7 +306,7 @@ def queueResponse {σ} (env : IdleEnv) (c : Conn σ) (r : Resp) : Conn σ × Lis
   else if env.shutdown then (c, [], false)
   else if !r.valid then (c, [], false)
   else
-    let c := { c with response := some r }
+    let c := { c with response := some r, touched := true }
     let c := if c.state = .headersProcessed then
                { c with discard := true, state := .startReply, remaining := 0 } else c
     (c, [.queued], true)
@@ -321,7 +323,8 @@ def callApp {σ} (cfg : Cfg) (app : App σ) (env : IdleEnv) (c : Conn σ) (site 
   let taken := min d.take offered
   let c1 := { c with app := s', clientAware := true }
   let ev := fun (ret : Bool) => LEv.handler site c.upOff offered taken c.ctx d.ctxOut ret
-  let c1 := { c1 with ctx := d.ctxOut, upOff := c.upOff + taken }
+  let c1 := { c1 with ctx := d.ctxOut, upOff := c.upOff + taken,
+                      somePayloadProcessed := if site = .upload then taken ≠ 0 else c1.somePayloadProcessed }
   match d.act with
   | .cont => (c1, [ev true], true, taken)
   | .fail => (c1, [ev false], false, taken)
@@ -551,6 +554,34 @@ def wantsRead {σ} (c : Conn σ) : Bool :=
   | .init | .reqLineReceiving | .reqHeadersReceiving | .bodyReceiving | .footersReceiving => true
   | _ => false
 
+inductive ELI where
+  | read | write | process | processRead | cleanup
+  deriving DecidableEq, Repr, Inhabited
+
+def tokBytes : Tok → Nat
+  | .data k => k
+  | _ => 1
+
+def bufBytes (b : List Tok) : Nat := (b.map tokBytes).sum
+
+/-- has_unprocessed_upload_body_data_in_buffer -/
+def hasUnprocessedBody {σ} (c : Conn σ) : Bool :=
+  if !c.haveChunked then !c.buf.isEmpty
+  else c.inChunk && c.chunkLeft != 0 && !c.buf.isEmpty
+
+/-- the `event_loop_info` MHD_connection_update_event_loop_info computes for the state -/
+def eventLoopInfo {σ} (c : Conn σ) : ELI :=
+  match c.state with
+  | .init | .reqLineReceiving | .reqHeadersReceiving | .footersReceiving => .read
+  | .continueSending | .headersSending | .normalBodyReady | .chunkedBodyReady | .footersSending => .write
+  | .bodyReceiving =>
+      if c.somePayloadProcessed && hasUnprocessedBody c then
+        if !c.haveChunked then (if bufBytes c.buf ≤ c.remaining then .process else .processRead)
+        else .processRead
+      else .read
+  | .closed => .cleanup
+  | _ => .process
+
 /-- MHD_connection_update_event_loop_info: the only effect relevant here is the no-space
     handling of check_and_grow_read_buffer_space -/
 def updateEventLoopInfo {σ} (cfg : Cfg) (env : IdleEnv) (c : Conn σ) : Out σ :=
@@ -577,11 +608,11 @@ def idleFuel {σ} (c : Conn σ) : Nat := 40 * (c.buf.length + 2)
 
 /-- MHD_connection_handle_idle -/
 def handleIdle {σ} (cfg : Cfg) (app : App σ) (env : IdleEnv) (c : Conn σ) : Out σ :=
-  let (c1, l1, f) := idleLoop cfg app env (idleFuel c) c
+  let (c1, l1, f) := idleLoop cfg app env (idleFuel c) { c with touched := false }
   match f with
   | .dead | .keep => (c1, l1)
   | _ =>
-    if env.timedOut ∧ ¬ c1.suspended then
+    if env.timedOut ∧ ¬ c1.touched ∧ ¬ c1.suspended then
       let (c2, l2) := closeConn c1 terminatedTimeoutReached
       (c2, l1 ++ l2)
     else
